@@ -276,6 +276,17 @@ pub fn c02_attacks(rng: &mut Rng, base: &LeafW, _lc: &LeafCircuit) -> Vec<Case> 
         w.rebind_tree();
         out.push(case("bind:address-derivation", "to=X!=WA(s)", true, w, Expect::Unsat));
     }
+    // recipient differs from WA(s) by a structured vector (split and unsplit)
+    for split in [true, false] {
+        let mut w = base.clone();
+        let x = refm::add4(&w.ua_account, &refm::structured_delta(rng));
+        w.leaf_to = x;
+        if !split {
+            w.ua_account = x;
+        }
+        w.rebind_tree();
+        out.push(case(if split { "bind:account-split" } else { "bind:address-derivation" }, "structured-delta", true, w, Expect::Unsat));
+    }
     // address from single hash / other salt
     {
         let mut w = base.clone();
@@ -324,6 +335,10 @@ pub fn c02_attacks(rng: &mut Rng, base: &LeafW, _lc: &LeafCircuit) -> Vec<Case> 
     {
         // count + 1
         variants.push(("count+1", refm::nullifier(&s, hi, (lo + 1) & 0xFFFF_FFFF)));
+    }
+    for _ in 0..3 {
+        // differs from the true nullifier by an algebraically structured vector
+        variants.push(("structured-delta", refm::add4(&base.nullifier, &refm::structured_delta(rng))));
     }
     for (vn, n) in variants {
         if n == base.nullifier {
@@ -395,6 +410,30 @@ pub fn c03_attacks(rng: &mut Rng, base: &LeafW, _lc: &LeafCircuit) -> Vec<Case> 
         w.header.tree_root = r2;
         w.block_hash = refm::block_hash(&w.header);
         out.push(case("bind:header-root", "header.root=other-tree", true, w, Expect::Unsat));
+    }
+    // header commits to root + structured delta (header binding intact, Merkle target = true root)
+    for _ in 0..2 {
+        let mut w = base.clone();
+        w.header.tree_root = refm::add4(&w.root_hash, &refm::structured_delta(rng));
+        w.block_hash = refm::block_hash(&w.header);
+        out.push(case("bind:header-root", "header.root=root+structured-delta", true, w, Expect::Unsat));
+    }
+    // both roots equal R + structured delta: the path folds to R, not to R'
+    for _ in 0..2 {
+        let mut w = base.clone();
+        let r = refm::add4(&w.root_hash, &refm::structured_delta(rng));
+        w.root_hash = r;
+        w.header.tree_root = r;
+        w.block_hash = refm::block_hash(&w.header);
+        out.push(case("bind:merkle-root", "root=root+structured-delta", true, w, Expect::Unsat));
+    }
+    // public block hash = true hash + structured delta
+    for _ in 0..2 {
+        let mut w = base.clone();
+        w.block_hash = refm::add4(&w.block_hash, &refm::structured_delta(rng));
+        if !refm::is_zero4(&w.block_hash) {
+            out.push(case("header:block-hash", "hash+structured-delta", true, w, Expect::Unsat));
+        }
     }
     // both roots equal R' but the path folds elsewhere
     {
